@@ -19,6 +19,7 @@ REGISTRY = {
     "C07": "kverif.props.stream:run_c07",
     "C10": "kverif.props.malformed:run_c10",
     "C17": "kverif.props.records:run_c17",
+    "C19": "kverif.props.state:run_c19",
     "C18": "kverif.props.records:run_c18",
 }
 
